@@ -901,6 +901,9 @@ pub enum ParamTemplate {
     UpDown(u8),
     /// clear_bit / bit_and / bit_or / not / or conditions
     Toggle(u8),
+    /// a parametric rule whose only production is one parametric reference that *changes* the
+    /// parameter (`more::_ : item::incr(_)`), referenced recursively: `a;a;...a.` with at most k+1 items
+    AliasChain { k: u8, op: u8 },
 }
 
 const LETTERS: &[&str] = &["a", "b", "c", "d", "e", "f"];
@@ -1017,6 +1020,19 @@ impl ParamTemplate {
                 pb.alt(false, "p", 1, "v", Some((1, "p", PExpr::Decr(0, 3))), Cond::Cmp(Cmp::Gt, 0, 3, 0));
                 pb.alt(false, "p", 1, "", None, Cond::IsZeros(0, 3));
             }
+            ParamTemplate::AliasChain { k, op } => {
+                n_nts = 3;
+                names.push("q".into());
+                // p::_ : q::<op>   (single unconditional rule with a modifying parameter)
+                let (pe, cond) = match op % 3 {
+                    0 => (PExpr::Incr(0, 64), Cond::Cmp(Cmp::Lt, 0, 64, *k as u64)),
+                    1 => (PExpr::Incr(0, 4), Cond::Cmp(Cmp::Le, 0, 4, *k as u64)),
+                    _ => (PExpr::SetBit(*k % 4), Cond::BitClear(*k % 4)),
+                };
+                pb.alt(true, "p", 1, "", Some((2, "q", pe)), Cond::True);
+                pb.alt(true, "q", 2, "a", Some((1, "p", PExpr::SelfRef)), cond);
+                pb.alt(false, "q", 2, "b", None, Cond::True);
+            }
             ParamTemplate::Toggle(n) => {
                 // letter k toggles bit k: set when clear, clear when set; stop when bit 0 set or all zero
                 for k in 0..*n {
@@ -1062,6 +1078,7 @@ pub fn param_template() -> impl Strategy<Value = ParamTemplate> {
         (2u8..=5, 0u8..=2, 1u8..=3).prop_map(|(n, lo, d)| ParamTemplate::Unique { n, lo, hi: (lo + d).min(n).max(lo.max(1)) }),
         (1u8..=5).prop_map(ParamTemplate::UpDown),
         (2u8..=3).prop_map(ParamTemplate::Toggle),
+        (1u8..=5, 0u8..3).prop_map(|(k, op)| ParamTemplate::AliasChain { k, op }),
     ]
 }
 
@@ -1167,6 +1184,36 @@ pub fn cfg_case() -> BoxedStrategy<CfgCase> {
         1 => param_template().prop_map(CfgCase::Param),
     ]
     .boxed()
+}
+
+/// Random CFGs with an `%ignore` lexeme.  They are used by the relational checks only (C01, C02,
+/// C10, C11, ...): the reference recogniser does not model skipped lexemes, so C05 never sees them.
+pub fn cfg_with_ignore() -> BoxedStrategy<GrammarSpec> {
+    let pool = vec![
+        Term::Lit("\n".into()),
+        Term::Lit("a".into()),
+        Term::Lit("bb".into()),
+        Term::Lit("c".into()),
+        Term::Lit("d".into()),
+        Term::Lit("(".into()),
+        Term::Lit(")".into()),
+        Term::Class(vec![b'x', b'y', b'z']),
+        Term::Class(vec![b'0', b'1', b'2', b'3']),
+    ];
+    let ign = prop_oneof![Just("%ignore / +/\n"), Just("%ignore /[ \\t]+/\n"), Just("%ignore /#[a-z]*;/\n"), Just("%llguidance { \"ignore_once\": true }\n%ignore / {1,3}/\n")];
+    (1usize..=4, proptest::sample::subsequence((0..pool.len()).collect::<Vec<_>>(), 2..=6), ign)
+        .prop_flat_map(move |(n_rules, term_idx, ign)| {
+            let terms: Vec<Term> = term_idx.iter().map(|&i| pool[i].clone()).collect();
+            let nt = terms.len();
+            let rules = proptest::collection::vec(proptest::collection::vec(expr_strategy(nt, n_rules), 1..=3), n_rules..=n_rules);
+            (Just(terms), rules, Just(ign))
+        })
+        .prop_map(|(terms, rules, ign)| {
+            let mut g = Cfg { terms, rules };
+            g.repair();
+            GrammarSpec::Lark(format!("{}{}", g.to_lark(), ign))
+        })
+        .boxed()
 }
 
 pub fn cfg_grammar() -> BoxedStrategy<GrammarSpec> {
